@@ -243,6 +243,21 @@ func (vr *variableResolver) String() string {
 	return strings.Join(parts, ".")
 }
 
+// fieldByName is reflect's FieldByName for a struct value, except that a field
+// promoted through an embedded pointer that is nil is just not there (instead
+// of a panic).
+func fieldByName(v reflect.Value, name string) reflect.Value {
+	sf, ok := v.Type().FieldByName(name)
+	if !ok {
+		return reflect.Value{}
+	}
+	field, err := v.FieldByIndexErr(sf.Index)
+	if err != nil {
+		return reflect.Value{}
+	}
+	return field
+}
+
 func (vr *variableResolver) resolve(ctx *ExecutionContext) (*Value, error) {
 	var current reflect.Value
 	var isSafe bool
@@ -333,7 +348,7 @@ func (vr *variableResolver) resolve(ctx *ExecutionContext) (*Value, error) {
 					// Calling a field or key
 					switch current.Kind() {
 					case reflect.Struct:
-						current = current.FieldByName(part.s)
+						current = fieldByName(current, part.s)
 						if current.IsValid() && !current.CanInterface() {
 							// unexported field: not accessible from a template
 							return AsValue(nil), nil
@@ -371,7 +386,7 @@ func (vr *variableResolver) resolve(ctx *ExecutionContext) (*Value, error) {
 						if err != nil {
 							return nil, err
 						}
-						current = current.FieldByName(sv.String())
+						current = fieldByName(current, sv.String())
 						if current.IsValid() && !current.CanInterface() {
 							// unexported field: not accessible from a template
 							return AsValue(nil), nil
